@@ -12,7 +12,7 @@ def run(ctx):
     ctx.assumptions += ["zip and quick-xml below the token level", "materialiser harness/src/build/xlsx.rs",
                         "documents keep their bounding box below ~1.1M cells (dense Range)"]
     tier = "quick" if ctx.quick else "thorough"
-    for part in ("pos", "typ", "dim", "pkg"):
+    for part in ("pos", "pfx", "typ", "dim", "pkg"):
         r = ctx.tlc("xlsx", "MC_XlsxSheet", "MC_XlsxSheet_%s_%s.cfg" % (tier, part), workers=ctx.pick(6, 12),
                     timeout=ctx.pick(600, 3000), xmx=ctx.pick("4g", "12g"))
         if "REPLAY" in r["tags"]:
